@@ -8,7 +8,8 @@ What logic can carry (this file):
  * `schedule_independent`: tasks on pairwise disjoint components give the same result under EVERY interleaving;
  * `swap_uniforms_pre_drawn`: the rayon swap routine (uniforms drawn up front) = the serial one, same draws, same order;
  * hence `parallel_tempering_step = tempering_step` and `parallel_timesteps_sample = timesteps_sample` on the model
-   for every scheduler (every pool size and work-stealing order), when the container does not hold exactly one replica;
+   for every scheduler (every pool size and work-stealing order) and every number of replicas (the one-replica
+   container included since the repair of finding F30, `fix:` f20b8b5);
  * `ambient_clean`: the regenerated list of ambient-state uses contains only the documented thread-rng wrappers,
    test code and `cfg(qmc_verif)` hooks; the crate forbids `unsafe`.
 What it cannot carry (runtime part of the check, harness `c13`): that rustc/rayon implement `&mut` disjointness and
@@ -120,35 +121,35 @@ theorem swap_uniforms_pre_drawn (ops : Ops F64 R Q U) (order : List Nat) (r : R)
 
 /-- `parallel_tempering_step` = `tempering_step` under every valid scheduler -/
 theorem parallel_tempering_step_eq (ops : Ops F64 R Q U) (sched : Scheduler) (hv : sched.Valid) (k : Nat)
-    (tc : TC F64 R Q) (hc : CacheValid ops tc) (h1 : tc.graphs.length ≠ 1) :
+    (tc : TC F64 R Q) (hc : CacheValid ops tc) :
     parTemperingStep ops sched k tc = temperingStep ops tc :=
-  parTemperingStep_eq ops sched hv k tc hc h1
+  parTemperingStep_eq ops sched hv k tc hc
 
 /-- `parallel_timesteps_sample` = `timesteps_sample`: final container (replicas, container RNG, caches, swap count),
 samples and energy accumulators are equal for EVERY valid scheduler, all `timesteps`, frequencies and fuel.
 Hypotheses: `ham_eq` depends on Hamiltonian data that steps, cutoff changes and swaps leave in place (`HamStable`,
-`hts`); the caches are valid at the start (they are `None` after construction); not exactly one replica. -/
+`hts`); the caches are valid at the start (they are `None` after construction). -/
 theorem parallel_timesteps_sample_eq (ops : Ops F64 R Q U) (sig : Q → H) (eqH : H → H → Bool)
     (hs : HamStable ops sig eqH) (so : SampleOps F64 Q E A S) (hts : ∀ t b q, sig (so.timesteps t b q).1 = sig q)
     (zero : A) (sched : Scheduler) (hv : sched.Valid) (timesteps swapFreq sampleFreq : Nat) (tc : TC F64 R Q)
-    (hc : CacheValid ops tc) (h1 : tc.graphs.length ≠ 1) :
+    (hc : CacheValid ops tc) :
     parTimestepsSample ops so zero sched timesteps swapFreq sampleFreq tc
       = timestepsSample ops so zero timesteps swapFreq sampleFreq tc := by
   unfold parTimestepsSample timestepsSample
   apply sampleLoop_congr _ _ (DriverInv ops)
   · intro k s hi
     exact body_eq_and_inv hs so hts sched hv swapFreq sampleFreq k s hi
-  · exact ⟨by simp [initLoop], by simp [initLoop], hc, h1⟩
+  · exact ⟨by simp [initLoop], by simp [initLoop], hc⟩
 
 /-- consequently any two schedulers (two pool sizes, two executions) give the same result -/
 theorem any_two_schedulers_agree (ops : Ops F64 R Q U) (sig : Q → H) (eqH : H → H → Bool)
     (hs : HamStable ops sig eqH) (so : SampleOps F64 Q E A S) (hts : ∀ t b q, sig (so.timesteps t b q).1 = sig q)
     (zero : A) (s₁ s₂ : Scheduler) (h₁ : s₁.Valid) (h₂ : s₂.Valid) (timesteps swapFreq sampleFreq : Nat)
-    (tc : TC F64 R Q) (hc : CacheValid ops tc) (h1 : tc.graphs.length ≠ 1) :
+    (tc : TC F64 R Q) (hc : CacheValid ops tc) :
     parTimestepsSample ops so zero s₁ timesteps swapFreq sampleFreq tc
       = parTimestepsSample ops so zero s₂ timesteps swapFreq sampleFreq tc := by
-  rw [parallel_timesteps_sample_eq ops sig eqH hs so hts zero s₁ h₁ _ _ _ tc hc h1,
-    parallel_timesteps_sample_eq ops sig eqH hs so hts zero s₂ h₂ _ _ _ tc hc h1]
+  rw [parallel_timesteps_sample_eq ops sig eqH hs so hts zero s₁ h₁ _ _ _ tc hc,
+    parallel_timesteps_sample_eq ops sig eqH hs so hts zero s₂ h₂ _ _ _ tc hc]
 
 end Drivers
 
@@ -202,12 +203,21 @@ example : view (parTemperingStep countOps revSched 0 (tcOf 5)) = view (tempering
 example : (temperingStep countOps (tcOf 5)).rng = some 5 ∧ (temperingStep countOps (tcOf 4)).rng = some 4 ∧
     (temperingStep countOps (tcOf 2)).rng = some 2 := by decide
 
-/-- **One replica** (documented note, not a violation of the statement): the serial step returns immediately and
-draws nothing, the rayon step draws one container-RNG word (the phase order) and fills the empty caches; the replica
-itself is unchanged in both. -/
-theorem one_replica_differs :
-    (temperingStep countOps (tcOf 1)).rng = some 0 ∧ (parTemperingStep countOps idSched 0 (tcOf 1)).rng = some 1 ∧
-    (temperingStep countOps (tcOf 1)).graphs = (parTemperingStep countOps idSched 0 (tcOf 1)).graphs := by decide
+/-- **One replica** (finding F30, repaired by `fix:` f20b8b5): both steps return immediately and draw nothing — the
+guard of the rayon step is `len() <= 1` like the serial one. -/
+theorem one_replica_agrees :
+    (temperingStep countOps (tcOf 1)).rng = some 0 ∧ (parTemperingStep countOps idSched 0 (tcOf 1)).rng = some 0 ∧
+    view (temperingStep countOps (tcOf 1)) = view (parTemperingStep countOps idSched 0 (tcOf 1)) := by decide
+
+/-- regression witness for F30: what the rayon step did with one replica under its former guard `is_empty()` — it ran
+the body and drew the phase-order word from the container RNG (`some 1`), so that a container to which a second
+replica was added afterwards made different swap decisions under the two drivers. -/
+theorem one_replica_old_guard_differs :
+    (temperingBody countOps
+        (fun c l => parSection (fun _ g => (countOps.setCutoff c g.1, g.2)) (idSched 1 0 l.length) l)
+        (fun r l eqs => parPerformSwaps countOps (idSched 2 0 (min (l.length / 2) eqs.length)) r l eqs)
+        (performSwaps countOps) (tcOf 1)).rng = some 1 ∧
+    (temperingStep countOps (tcOf 1)).rng = some 0 := by decide
 
 /-- schedule independence is not vacuous: two different interleavings of two components' task lists -/
 example : runTasks [⟨0, (· + 1)⟩, ⟨1, (· * 2)⟩, ⟨0, (· * 3)⟩] [1, 1] =
